@@ -7,13 +7,14 @@ def run(ctx):
     vlib.build_harness(ctx)
     mc.mc_meta(ctx)
     n = 1500 if ctx.thorough else 200
-    beh = mc.gen_meta(ctx, "beh.ndjson", n, 12, False, False, False, '{"diff", "update"}', maxbundles=6)
-    cfgs = [["--leaf", "64", "--conc", "4", "--deep=false", "--final-download=false"]]
+    beh = mc.gen_meta(ctx, "beh.ndjson", n, 12, False, True, False, '{"diff", "update"}', maxbundles=6)
+    cfgs = [["--leaf", "64", "--conc", "4", "--deep=false", "--final-download=false", "--stash"]]
     if ctx.thorough:
-        cfgs += [["--leaf", "4096", "--conc", "1", "--crc", "--deep=false", "--final-download=false"]]
+        cfgs += [["--leaf", "4096", "--conc", "1", "--crc", "--deep=false", "--final-download=false", "--stash"]]
     results = vlib.parallel(mc.replay_jobs(ctx, beh, cfgs), max_workers=4)
     return mc.finish(ctx, results,
                      "behaviour = random uploads of trees over a shared path pool (identical, disjoint, changed content, "
                      "empty) followed by diff(a,b) compared with Meta!DiffOp and update(a->b) compared with a fresh download "
-                     "of b (files and .datamon metadata); non-trivial = at least 3 mutating steps",
+                     "of b (files and .datamon metadata), also starting from a local copy of a taken before delete-files rewrote "
+                     "it; non-trivial = at least 3 mutating steps",
                      ["diff is by content key: same path with same content is not reported"])
